@@ -149,16 +149,15 @@ theorem resp_matches_code (e : Env) (s : St) (w lo hi k : Nat) (hw : s.workers[w
     rw [this]; omega
 
 /-- `updateSTH` only ever accepts an STH that is strictly bigger than the current end (the guard of the model's
-`grow`), whatever the clock says, and then the new end is that tree size. -/
+`grow`), whatever the clock says, and then the new end is that tree size. (`Gen.updateSTHRejects` is the disjunction of the tests under
+which the retry closure answers "wait for a bigger STH", read with all locals followed back to `sth.TreeSize`, `f.opts.EndIndex`,
+`f.opts.BatchSize` and the clock test.) -/
 theorem updateSTH_accepts_only_growth (treeSize endIndex batchSize : Int) (quick : Bool)
     (he : 0 ≤ endIndex) (he' : endIndex < 2^63) (ht : 0 ≤ treeSize) (ht' : treeSize < 2^63)
-    (h : Gen.updateSTHRejects treeSize (Gen.updateSTHLastSize endIndex)
-          (Gen.updateSTHTargetSize (Gen.updateSTHLastSize endIndex) batchSize) quick = false) :
+    (h : Gen.updateSTHRejects treeSize endIndex batchSize quick = false) :
     endIndex < treeSize ∧ Gen.updateSTHNewEnd treeSize = treeSize := by
-  have hl : Gen.updateSTHLastSize endIndex = endIndex := by
-    simp only [Gen.updateSTHLastSize, U64.wrap]; omega
-  rw [hl] at h
-  simp only [Gen.updateSTHRejects, Bool.or_eq_false_iff, decide_eq_false_iff_not] at h
+  have hl : U64.wrap endIndex = endIndex := by simp only [U64.wrap]; omega
+  simp only [Gen.updateSTHRejects, hl, Bool.or_eq_false_iff, decide_eq_false_iff_not] at h
   refine ⟨by omega, ?_⟩
   simp only [Gen.updateSTHNewEnd]
   exact I64.wrap64_id' _ (by omega) ht'
@@ -166,12 +165,9 @@ theorem updateSTH_accepts_only_growth (treeSize endIndex batchSize : Int) (quick
 /-- after the 45 s "quick" phase every strictly bigger STH is accepted (so a growing log is followed) -/
 theorem updateSTH_accepts_growth (treeSize endIndex batchSize : Int)
     (he : 0 ≤ endIndex) (he' : endIndex < 2^63) (h : endIndex < treeSize) :
-    Gen.updateSTHRejects treeSize (Gen.updateSTHLastSize endIndex)
-          (Gen.updateSTHTargetSize (Gen.updateSTHLastSize endIndex) batchSize) false = false := by
-  have hl : Gen.updateSTHLastSize endIndex = endIndex := by
-    simp only [Gen.updateSTHLastSize, U64.wrap]; omega
-  rw [hl]
-  simp [Gen.updateSTHRejects]; omega
+    Gen.updateSTHRejects treeSize endIndex batchSize false = false := by
+  have hl : U64.wrap endIndex = endIndex := by simp only [U64.wrap]; omega
+  simp [Gen.updateSTHRejects, hl]; omega
 
 /-- `Prepare`: the end of the range becomes the tree size exactly when no end was given or the given one is
 beyond the tree; so the effective end never exceeds the tree size. -/
@@ -426,7 +422,7 @@ example : Gen.updateSTHNewEnd (2^63) = -(2^63) ∧ Gen.prepareResets (2^63) 0 = 
 example : quiescent (run exEnv (init 0 8 2 2 0 false) [.hand 0, .hand 1, .err 0, .cancel, .err 1, .abandon 0, .abandon 1, .close]) = true
     ∧ (run exEnv (init 0 8 2 2 0 false) [.hand 0, .hand 1, .err 0, .cancel, .err 1, .abandon 0, .abandon 1, .close]).abandoned = [(2, 4), (0, 2)] := by decide
 example : Gen.genRangesBatchEnd 6 7 1000 = 7 ∧ Gen.genRangesNext 6 7 = (6, 6) := by decide
-example : Gen.updateSTHRejects 10 10 1010 false = true ∧ Gen.updateSTHRejects 11 10 1010 true = true ∧ Gen.updateSTHRejects 11 10 1010 false = false := by decide
+example : Gen.updateSTHRejects 10 10 1000 false = true ∧ Gen.updateSTHRejects 11 10 1000 true = true ∧ Gen.updateSTHRejects 11 10 1000 false = false := by decide
 example : Gen.prepareResets 50 0 = true ∧ Gen.prepareResets 50 60 = true ∧ Gen.prepareResets 50 40 = false := by decide
 
 end C16
